@@ -15,6 +15,7 @@ FAMILY = {
     "C17": "fam_netctx",
     "C18": "fam_bridge",
     "C11": "fam_udp", "C12": "fam_udp",
+    "C13": "fam_vnetaddr",
     "C14": "fam_delay",
     "C15": "fam_filters", "C16": "fam_filters",
 }
